@@ -175,6 +175,12 @@ def _raw_overloads(body, cls, what):
             raise TranslateError("%s::operator<<(%s): expected exactly one overload, found %d" % (what, nm, len(hs)))
         if not re.fullmatch(r"\s*%s\s*return\s+\*this;\s*" % bod, hs[0]):
             raise TranslateError("%s::operator<<(%s): body not recognised: %s" % (what, nm, " ".join(hs[0].split())[:160]))
+    hs = re.findall(r"%s&\s*operator<<\s*\(\s*char\*\s*x\s*\)[^{]*\{(.*?)\}" % cls, body, re.S)
+    if len(hs) != 1 or not re.fullmatch(r"\s*return\s+\*this\s*<<\s*\(const\s+char\*\)\s*x;\s*", hs[0]):
+        raise TranslateError("%s::operator<<(char*): missing or not recognised (a non-const char* / char[N] would go to the generic operator: pointer value written)" % what)
+    if cls == "StreamBuffer":
+        if not re.search(r"template\s*<\s*class\s+T\s*,\s*int\s+N\s*>\s*StreamBuffer&\s*operator<<\s*\(\s*const\s+T\s*\(&x\)\[N\]\s*\)\s*\{\s*for\s*\(\s*int\s+i\s*=\s*0;\s*i\s*<\s*N;\s*i\+\+\s*\)\s*\*this\s*<<\s*x\[i\];\s*return\s+\*this;\s*\}", body):
+            raise TranslateError("StreamBuffer::operator<<(const T (&)[N]): missing or not recognised (a C array would go to the generic operator: items reversed in the non-native order)")
     if cls != "StreamBuffer":
         for ty in ("char", "byte"):
             hs = re.findall(r"%s&\s*operator>>\s*\(\s*%s&\s*x\s*\)\s*\{(.*?)\}" % (cls, ty), body, re.S)
@@ -363,8 +369,8 @@ def translate(repo):
     c, n = _rarray_template(sk, "Socket::operator>>(Array<T>&)")
     L.append("def sockRArraySwap (e : Endian) (arith : Bool) : Bool := %s" % c)
     L.append("def sockRArrayCount (len size : Nat) : Nat := %s" % n)
-    if not re.search(r"String\s+readString\(int\s+n\)\s*\{\s*if\s*\(n\s*<\s*0\)\s*n\s*=\s*0;\s*String\s+s\(n,\s*0\);\s*n\s*=\s*read\(&s\[0\],\s*n\);\s*if\s*\(n\s*>=\s*0\)\s*s\[n\]\s*=\s*'\\0';\s*return\s+s\.fix\(\);\s*\}", sk):
-        raise TranslateError("Socket::readString: body not recognised (negative length must be treated as 0)")
+    if not re.search(r"String\s+readString\(int\s+n\)\s*\{\s*if\s*\(n\s*<\s*0\)\s*n\s*=\s*0;\s*String\s+s\(n,\s*0\);\s*n\s*=\s*read\(&s\[0\],\s*n\);\s*if\s*\(n\s*<\s*0\)\s*n\s*=\s*0;\s*s\[n\]\s*=\s*'\\0';\s*return\s+s\.fix\(n\);\s*\}", sk):
+        raise TranslateError("Socket::readString: body not recognised (negative length treated as 0, length set to the bytes read — not strlen)")
     if not re.search(r"int\s+Socket_::read\(void\*\s*data,\s*int\s+size\)\s*\{\s*if\s*\(size\s*<=\s*0\)\s*return\s+0;", scpp):
         raise TranslateError("Socket_::read: a read of no bytes must return 0 without calling read() (it marked the socket as failed)")
     ds = re.findall(r"_endian\s*=\s*(ENDIAN_\w+);", scpp)
@@ -483,6 +489,13 @@ def roundtrip_case(rng, kind, nitems, arr_max=100, p_switch=0.2):
                     rl.extend(["r " + ty] * n)
                     total += n * WIDTH[ty]
                 continue
+            if kind == "sb" and ty != "ch" and rng.random() < 0.25:
+                # a C array T[N] (char[N] is a C string: ops wc / wca)
+                n = rng.randrange(1, 9)
+                wl.append("wcarr" + arr_line(rng, ty, n)[2:])
+                rl.extend(["r " + ty] * n)
+                total += n * WIDTH[ty]
+                continue
             wl.append(arr_line(rng, ty, n))
             q = rng.random()
             if q < 0.2:
@@ -513,16 +526,23 @@ def roundtrip_case(rng, kind, nitems, arr_max=100, p_switch=0.2):
                     total += n
         elif r < 0.88 and kind != "sb":
             # length-prefixed string, read back with operator>>(String&)
-            s = rbytes(rng, rng.randrange(0, 40), nul=(kind == "file"))
+            s = rbytes(rng, rng.randrange(0, 40), nul=True)
+            if rng.random() < 0.3:
+                s = s[:len(s) // 2] + b"\0" + s[len(s) // 2:]
             wl.append("w i32 %08x" % len(s))
             wl.append("ws " + hexs(s))
             rl.append("rs")
             total += 4 + len(s)
         else:
             s = rbytes(rng, rng.randrange(0, 40))
-            op = rng.choice(["ws", "wb", "wz"])
+            op = rng.choice(["ws", "wb", "wz", "wc", "wca"])
+            if op == "wca":
+                if kind != "sb":
+                    op = "wc"
+                else:
+                    s = s[:rng.randrange(0, 16)]
             wl.append("%s %s" % (op, hexs(s)))
-            n = len(s.split(b"\0")[0]) if op == "wz" else len(s)
+            n = len(s.split(b"\0")[0]) if op in ("wz", "wc", "wca") else len(s)
             rl.append("rb %d" % n)
             total += n
     if kind == "sock":
@@ -638,6 +658,28 @@ def special_grid(rng):
                   "w i32 01020304", "wself"]
             cases.append(c + ["reader " + o, "rb %d" % (8 * n0 + 8), "rb 100000", "r u8"])
     for o in ["def"] + ORDERS:
+        # char*, char[N] and T[N] (hunt round 3): C strings and C arrays, not values of the generic operator
+        for kind in KINDS:
+            c = ["new %s %s" % (kind, o), "wc 616263", "wc -", "wc 61006200", "wca 616263", "wca -", "wca 610062", "endian big", "wc 616263", "wca 616263"]
+            cases.append(c + ["reader " + o, "rb 64", "r u8"])
+        for ty in [x for x in TYPES if x != "ch"]:
+            c = ["new sb " + o]
+            rd = ["reader " + o]
+            for n in (1, 2, 3, 8):
+                c.append("wcarr" + arr_line(rng, ty, n)[2:])
+                rd += ["r " + ty] * n
+            c.append("endian big")
+            rd.append("rendian big")
+            for n in (2, 5):
+                c.append("wcarr" + arr_line(rng, ty, n)[2:])
+                rd += ["r " + ty] * n
+            cases.append(c + rd + ["r u8"])
+    for kind in ("file", "sock"):
+        for o in ORDERS:
+            # length-prefixed strings with NULs inside read back whole on both classes
+            for sv in (b"ab\0cd", b"\0", b"\0\0x", b"abc\0"):
+                cases.append(["new %s %s" % (kind, o), "w i32 %08x" % len(sv), "ws " + hexs(sv), "w u8 7e", "reader " + o, "rs", "r u8", "r u8"])
+    for o in ["def"] + ORDERS:
         # zero-length socket reads of every kind between two values (hunt D5): the socket must stay healthy
         for ty in TYPES:
             c = ["new sock " + o, "w i32 00000007", "wa %s -" % ty, "wb -", "ws -", "was", "state", "w u32 00000000", "w i32 00000008",
@@ -709,7 +751,7 @@ def extra(ctx):
 
 
 def nontrivial(case):
-    wrote = any(l.startswith(("w ", "wa ")) and WIDTH.get(l.split()[1], 1) > 1 and l.split()[-1] != "-" for l in case) or \
+    wrote = any(l.startswith(("w ", "wa ", "wcarr ")) and WIDTH.get(l.split()[1], 1) > 1 and l.split()[-1] != "-" for l in case) or \
         any(l.startswith("av ") and WIDTH.get(l.split()[2], 1) > 1 and l.split()[-1] != "-" for l in case)
     read = any(l.startswith("r ") for l in case)
     return wrote and read
@@ -720,7 +762,7 @@ def distribution(cases):
          "writes_by_order_in_force": {}, "reads_by_order_in_force": {}, "order_switches_mid_stream": 0, "nan_values": 0,
          "min_max_int_values": 0, "values_per_case_hist": {}, "max_values_in_a_case": 0,
          "array_variable_writes": {}, "array_rewrites_same_object": 0, "array_rewrites_after_order_switch": 0,
-         "string_array_writes_by_order": {}, "self_writes": 0, "socket_state_observations": 0, "zero_length_socket_reads": 0, "array_reads_by_order_in_force": {}}
+         "string_array_writes_by_order": {}, "c_array_writes_by_order": {}, "self_writes": 0, "socket_state_observations": 0, "zero_length_socket_reads": 0, "array_reads_by_order_in_force": {}}
     for c in cases:
         kind = None
         we = re_ = None
@@ -762,8 +804,11 @@ def distribution(cases):
                 d["array_writes_by_type"][key] = d["array_writes_by_type"].get(key, 0) + 1
                 b = "0" if n == 0 else "1" if n == 1 else "2-9" if n < 10 else "10-49" if n < 50 else "50-99" if n < 100 else "100"
                 d["array_len_hist"][b] = d["array_len_hist"].get(b, 0) + 1
-            elif op in ("ws", "wb", "wz"):
+            elif op in ("ws", "wb", "wz", "wc", "wca"):
                 nvals += 1
+            elif op == "wcarr":
+                nvals += 1
+                d["c_array_writes_by_order"][we] = d["c_array_writes_by_order"].get(we, 0) + 1
             elif op == "was":
                 nvals += 1
                 d["string_array_writes_by_order"][we] = d["string_array_writes_by_order"].get(we, 0) + 1
@@ -885,7 +930,26 @@ def _reference(line):
             b = b"".join(unhex(x) for x in t[1:])     # an array of strings is the strings' bytes, whatever the byte order
             s["out"] += b
             return hexs(b)
-        if op in ("w", "wa", "wb", "ws", "wz"):
+        if op in ("wca", "wcarr"):
+            if s["reading"]:
+                return "closed"
+            if s["kind"] != "sb":
+                return "na"
+            if op == "wca":
+                b = unhex(t[1]).split(b"\0")[0]
+            else:
+                ty = t[1]
+                w = WIDTH[ty]
+                blob = unhex(t[2])
+                b = b""
+                for i in range(0, len(blob), w):
+                    v = int.from_bytes(blob[i:i + w], "big")
+                    if ty == "b":
+                        v = 1 if v else 0
+                    b += v.to_bytes(w, _order(s["we"]))       # items in the order of the array
+            s["out"] += b
+            return hexs(b)
+        if op in ("w", "wa", "wb", "ws", "wz", "wc"):
             if s["reading"]:
                 return "closed"
             if op == "w":
@@ -904,7 +968,7 @@ def _reference(line):
                     if ty == "b":
                         v = 1 if v else 0
                     b += v.to_bytes(w, _order(s["we"]))
-            elif op == "wz":
+            elif op in ("wz", "wc"):
                 b = unhex(t[1]).split(b"\0")[0]
             else:
                 b = unhex(t[1])
@@ -970,8 +1034,6 @@ def _reference(line):
                 return None
             b = s["rest"][4:4 + n]
             s["rest"] = s["rest"][4 + n:]
-            if s["kind"] == "sock" and 0 in b:
-                return None
             return "%d %s" % (len(b), hexs(b))
     except Exception:
         s["kind"] = None
@@ -1043,7 +1105,8 @@ LEVEL_TEXT = ("Proved in Lean 4 for all three classes, all 12 scalar types, all 
               "Array<String> appends the strings' bytes in every order and never object memory (string_array_canonical); File/Socket >> Array<T> "
               "(length set by the caller) is the inverse of << Array<T> for every type, order and length, item-by-item and one-block branch alike (array_get_put); "
               "File >> String on arbitrary data returns only bytes that are there, the empty string for a negative length (string_read_total); "
-              "length-prefixed strings read back (string_read_back). The two switch theorems and the raw-byte cases of read_back hold by the shape "
+              "StreamBuffer << T[N] is the items' encodings in array order in every byte order (carray_canonical); "
+              "length-prefixed strings, NULs included, read back on File and Socket (string_read_back). The two switch theorems and the raw-byte cases of read_back hold by the shape "
               "of the model (setEndian writes/reads no byte; ByteArray/String/const char* writes are the bytes themselves; read(n)/skip are take/drop): "
               "likewise a model write cannot alter its argument (it returns only the new order and the bytes): that the real operator<< leaves the "
               "caller's const T& / const Array<T>& untouched is observed by the harness after every write (one Array object written repeatedly, dumped each time). "
@@ -1059,7 +1122,9 @@ LEVEL_NOTE = ("Trusted: Lean kernel, the regex translator + compiler probe, the 
               "skip/read(n), Socket >> String truncation at NUL. Reads past the end and File/Socket >> bool of a byte other than 0/1 are outside the property "
               "(guarded in the protocol). Fixed defects kept as corpus witnesses: 264bf86 (Array<T> in native order wrote length() bytes), fbcbf17 (a StreamBuffer written into itself read freed "
               "storage), 8a61870 (Array<String> in native order wrote String object memory), e37681a (>> String trusted its length: out-of-bounds write), cdda882 "
-              "(>> Array<T> read raw bytes over the Array object), 8331f50 (a zero-length Socket read marked the socket as failed). The stream object's own "
+              "(>> Array<T> read raw bytes over the Array object), 8331f50 (a zero-length Socket read marked the socket as failed), b125771 (Socket::readString cut the value at the first NUL; "
+              "the earlier model had transcribed that truncation as behaviour, string_read_back carried a NUL-free hypothesis for Socket and the generator kept NULs out of "
+              "socket strings, which is why K did not see it), 7c56539 (char*, char[N] and T[N] taken by the generic operator<<: pointer value written, text/items reversed). The stream object's own "
               "view (Socket error(), available() = unread bytes) has no theorem: the model has no failure state for reads of bytes that are there; the harness "
               "checks error() after every socket operation and the `state` op compares available() with the model's unread byte count (K only). Known finding string-read-not-inverse: >> String expects an int32 length that << String does not write "
               "(library format decision; probe `rsame`, printed as KNOWN-FINDING; exactly that expectation is excluded from the generator, `rs` on arbitrary bytes is generated). "
